@@ -23,6 +23,7 @@ import (
 	"time"
 
 	"github.com/mgtv-tech/redis-GunYu/config"
+	"github.com/mgtv-tech/redis-GunYu/pkg/redis/checkpoint"
 	"github.com/mgtv-tech/redis-GunYu/pkg/redis/client"
 	"github.com/mgtv-tech/redis-GunYu/pkg/redis/client/conn"
 	"github.com/mgtv-tech/redis-GunYu/pkg/vfdoubles"
@@ -43,6 +44,7 @@ type vfSCase struct {
 	fwl                   []string
 	perB, perK, perC      int // µs
 	init                  map[int]int64 // db -> offset already stored for rid
+	lat                   int           // µs of virtual time the target takes per request (monitors only: not in the op line, not compared with the model)
 	oth                   []string      // foreign records on the target: <db>:<run id>:<offset> (another id, possibly with rid as prefix)
 	raw                   [][][]byte
 	evs                   []vfSEv
@@ -206,11 +208,21 @@ func vfSeedTarget(c *vfSCase) *vfdoubles.Target {
 
 // vfRunSend runs the real sendAof under virtual time and returns the request
 // log (without the seed requests).
-func vfRunSend(t *testing.T, c *vfSCase, tg *vfdoubles.Target, startDb int, start int64, stream []byte, evs []vfSEv, cmdEnds []int) []vfdoubles.LogEntry {
+func vfRunSend(t *testing.T, c *vfSCase, tg *vfdoubles.Target, startDb int, start int64, stream []byte, evs []vfSEv, cmdEnds []int) ([]vfdoubles.LogEntry, *RedisOutput) {
 	nSeed := tg.LogLen()
+	var ro *RedisOutput
 	synctest.Test(t, func(t *testing.T) {
-		ro := vfNewOutput(c, tg)
+		ro = vfNewOutput(c, tg)
 		ro.startDbId = startDb
+		if !c.resume {
+			// what setCheckpoint leaves at the end of the full sync that precedes the stream
+			ro.checkpointInMem = checkpoint.CheckpointInfo{Key: c.cp, RunId: c.rid, Offset: start, Version: config.Version}
+		}
+		if c.lat > 0 {
+			lat := time.Duration(c.lat) * time.Microsecond
+			tg.Hook = func(int, vfdoubles.LogEntry) { time.Sleep(lat) }
+			defer func() { tg.Hook = nil }()
+		}
 		ctx, cancel := context.WithCancel(context.Background())
 		defer cancel()
 		pr, pw := io.Pipe()
@@ -253,7 +265,7 @@ func vfRunSend(t *testing.T, c *vfSCase, tg *vfdoubles.Target, startDb int, star
 		tg.CloseAll()
 	})
 	log := tg.LogCopy()
-	return log[nSeed:]
+	return log[nSeed:], ro
 }
 
 // vfRunResumed is the restart after a crash: a FRESH RedisOutput on the crashed
@@ -296,6 +308,44 @@ func vfRunResumed(t *testing.T, c *vfSCase, tk *vfdoubles.Target, start int64, s
 		synctest.Wait()
 		tk.CloseAll()
 		log2 = tk.LogCopy()[n0:]
+	})
+	return
+}
+
+// vfRunAgain is the second run on the SAME RedisOutput after the source connection came back:
+// real StartPoint (in-memory position), then the real sendAof over the rest of the stream.
+func vfRunAgain(t *testing.T, c *vfSCase, tg *vfdoubles.Target, ro *RedisOutput, start int64, stream []byte, boundary map[int64]bool) (sp StartPoint, log2 []vfdoubles.LogEntry, ok bool) {
+	synctest.Test(t, func(t *testing.T) {
+		var err error
+		sp, err = ro.StartPoint(context.Background(), []string{c.rid})
+		if err != nil || sp.RunId == "?" || sp.Offset < start || sp.Offset > start+int64(len(stream)) || !boundary[sp.Offset] {
+			return
+		}
+		ok = true
+		n0 := tg.LogLen()
+		ctx, cancel := context.WithCancel(context.Background())
+		defer cancel()
+		pr, pw := io.Pipe()
+		done := make(chan error, 1)
+		go func() {
+			done <- ro.sendAof(ctx, sp.RunId, bufio.NewReaderSize(pr, 4096), sp.Offset, -1)
+		}()
+		schedDone := make(chan struct{})
+		go func() {
+			defer close(schedDone)
+			time.Sleep(time.Millisecond)
+			if rest := stream[sp.Offset-start:]; len(rest) > 0 {
+				pw.Write(rest)
+			}
+			time.Sleep(13*time.Second + 500*time.Microsecond)
+			pw.Close()
+		}()
+		<-done
+		pr.Close()
+		<-schedDone
+		synctest.Wait()
+		tg.CloseAll()
+		log2 = tg.LogCopy()[n0:]
 	})
 	return
 }
@@ -771,7 +821,7 @@ func vfStreamOf(raw [][][]byte) (stream []byte, ends []int) {
 func vfSenderCase(t *testing.T, s *vfutil.Session, r *vfutil.Rand, c *vfSCase, tag int, src string) {
 	tg := vfSeedTarget(c)
 	stream, ends := vfStreamOf(c.raw)
-	log := vfRunSend(t, c, tg, c.sdb, c.start, stream, c.evs, ends)
+	log, ro1 := vfRunSend(t, c, tg, c.sdb, c.start, stream, c.evs, ends)
 
 	// crash prefixes: all (thorough or short logs), else a sample incl. the ends
 	var ks []int
@@ -822,7 +872,9 @@ func vfSenderCase(t *testing.T, s *vfutil.Session, r *vfutil.Rand, c *vfSCase, t
 		sps = append(sps, spRes{k, sp.Offset, sp.DbId, sp.RunId})
 	}
 	impl = append(impl, fmt.Sprintf("#%d end", tag))
-	s.Op(c.opLine(tag, ks), impl...)
+	if c.lat == 0 {
+		s.Op(c.opLine(tag, ks), impl...)
+	}
 
 	// ------------------------------------------------------------ coverage
 	s.Count("src_" + src)
@@ -891,8 +943,23 @@ func vfSenderCase(t *testing.T, s *vfutil.Session, r *vfutil.Rand, c *vfSCase, t
 			break
 		}
 	}
-	if !c.txn && len(dataApp) < len(exp) {
-		s.Violate("C01:dropped", fmt.Sprintf("run ended (final flush) with %d of %d expected commands executed", len(dataApp), len(exp)), replay(nil))
+	// what was received but not executed when the run ended must not be covered by the position the
+	// run leaves (the shutdown flush itself is best effort: the loop leaves after whichever ready event
+	// it picks once the stream is closed). With a position on the target that is the crash point
+	// k = len(log) below; with the in-memory position it is checked here.
+	if !c.resume && ro1 != nil {
+		ro1.cpGuard.RLock()
+		memOff := ro1.checkpointInMem.Offset
+		ro1.cpGuard.RUnlock()
+		cov := 0
+		for _, e := range exp {
+			if e.end <= memOff {
+				cov++
+			}
+		}
+		if cov > len(dataApp) {
+			s.Violate("C02:write-skipped", fmt.Sprintf("run ended with the in-memory position at %d covering %d commands, only %d were executed", memOff, cov, len(dataApp)), replay(map[string]interface{}{"offset": memOff}))
+		}
 	}
 	// C09: a source transaction is inside one target block, with its offset
 	if c.txn {
@@ -1055,6 +1122,67 @@ func vfSenderCase(t *testing.T, s *vfutil.Session, r *vfutil.Rand, c *vfSCase, t
 	}
 }
 
+// vfRerunCase: the source connection drops and comes back (PSYNC CONTINUE): RedisInput.Run calls
+// StartPoint and Send again on the SAME RedisOutput. The tool was never interrupted, so nothing may
+// be skipped, every command must run in the database the source is in, and -- the first run having
+// ended cleanly -- nothing may be repeated. Run for the in-memory position (resume=false), where the
+// target holds no record that a fresh start could read. The first run receives the first j commands
+// of the stream, the second run the rest.
+func vfRerunCase(t *testing.T, s *vfutil.Session, r *vfutil.Rand, c *vfSCase, tag int) {
+	if c.resume || len(c.raw) < 2 {
+		return
+	}
+	j := r.Range(1, len(c.raw)-1)
+	c1 := *c
+	c1.raw = c.raw[:j]
+	c1.evs = []vfSEv{{t: 1500, n: j}, {t: 20000500, close: true}}
+	tg := vfSeedTarget(&c1)
+	stream1, ends1 := vfStreamOf(c1.raw)
+	stream, _ := vfStreamOf(c.raw)
+	log1, ro1 := vfRunSend(t, &c1, tg, c.sdb, c.start, stream1, c1.evs, ends1)
+	exp, cmdEnds, _, _ := vfExpected(c, c.sdb, c.start, c.raw)
+	boundary := map[int64]bool{c.start: true}
+	for _, e := range cmdEnds {
+		boundary[e] = true
+	}
+	sp2, log2, ok := vfRunAgain(t, c, tg, ro1, c.start, stream, boundary)
+	if !ok {
+		s.Count("rerun_none")
+		return
+	}
+	s.Count("rerun_runs")
+	s.Count(fmt.Sprintf("rerun_txn%v", c.txn))
+	app1, _, _ := vfAppliedOf(c, log1)
+	app2, _, _ := vfAppliedOf(c, log2)
+	rp := map[string]interface{}{"op": c.opLine(tag, nil), "rerun_after": j, "offset": sp2.Offset, "db": sp2.DbId}
+	first := 0
+	for first < len(exp) && exp[first].end <= sp2.Offset {
+		first++
+	}
+	if first > len(app1) {
+		s.Violate("C02:write-skipped", fmt.Sprintf("source reconnect after %d commands: the second run starts at %d and skips %d commands the target never executed", j, sp2.Offset, first-len(app1)), rp)
+		return
+	}
+	want2 := exp[first:]
+	for k, a := range app2 {
+		if k >= len(want2) {
+			s.Violate("C01:rerun-differs", "second run executes a command the stream does not hold there: "+vfFmtCmd(a.db, a.args), rp)
+			return
+		}
+		if !vfSameCmd(a.args, want2[k].args) {
+			s.Violate("C01:rerun-differs", fmt.Sprintf("second run #%d executes %s, the stream holds %s", k, vfFmtCmd(a.db, a.args), vfFmtCmd(want2[k].db, want2[k].args)), rp)
+			return
+		}
+		if a.db != want2[k].db {
+			s.Violate("C01:rerun-wrong-db", fmt.Sprintf("source reconnect after %d commands: second run #%d executes %s, the source intends db %d", j, k, vfFmtCmd(a.db, a.args), want2[k].db), rp)
+			return
+		}
+	}
+	if first < len(app1) {
+		s.Violate("C01:rerun-repeats", fmt.Sprintf("source reconnect after %d commands and a clean end of the first run: the second run starts at %d and repeats %d commands", j, sp2.Offset, len(app1)-first), rp)
+	}
+}
+
 func TestVerifSender(t *testing.T) {
 	s := vfutil.NewSession("Sender")
 	defer s.Close()
@@ -1081,6 +1209,7 @@ func TestVerifSender(t *testing.T) {
 	for i := 0; i < n; i++ {
 		c := vfGenCase(r.Fork(), i)
 		vfSenderCase(t, s, r, c, tag, "gen")
+		vfRerunCase(t, s, r, c, tag)
 		tag++
 	}
 }
